@@ -504,4 +504,90 @@ PROPS["C18"] = {
     "level_note": "Trusted: Lean kernel; extractor; harness. base58 and the RFC 3339 calendar arithmetic are executable models validated by the stream.",
 }
 
+
+def _c08_property(r):
+    """does the implementation's own output do what the caller asked for (the generator's account)?"""
+    from check import canon
+    imp = r["impl"]
+    if not isinstance(imp, dict) or "steps" not in imp:
+        return None
+    for st, o in zip(r["case"]["steps"], imp["steps"]):
+        e = st["expect"]
+        where = "lifecycle/%s/%s/" % (st["via"], st["op"])
+        if e.get("refuse") and o.get("built") == "ok":
+            return where + e["spoiled"] + "/builder-accepts"
+        if not e.get("valid"):
+            continue
+        if o.get("built") != "ok":
+            return where + "valid-input-refused"
+        if o.get("parse") != "ok":
+            return where + "request-not-accepted-by-parser"
+        if o.get("anchored") != o.get("request"):
+            return where + "anchored-bytes-differ-from-canonical-request"
+        if o.get("atype") != st["op"]:
+            return where + "anchored-type"
+        if o.get("apply") != "ok":
+            return where + "request-not-applied"
+        if not o.get("original_same_state"):
+            return where + "anchored-applies-differently"
+        state = o["state"]
+        doc = state.get("doc") or {}
+        for member, exp in (("publicKey", e["keys"]), ("service", e["services"])):
+            got = {}
+            for entry in doc.get(member) or []:
+                if entry.get("id") in got:
+                    return where + member + "-listed-twice"
+                got[entry.get("id")] = entry
+            if canon(got) != canon(exp):
+                return where + member + "-not-as-requested"
+        if sorted(doc.get("alsoKnownAs") or []) != sorted(e["aka"]):
+            return where + "alsoKnownAs-not-as-requested"
+        if state.get("uc") != e["uc"] or state.get("rc") != e["rc"]:
+            return where + "commitments-not-as-requested"
+        if bool(state.get("deactivated")) != e["deactivated"]:
+            return where + "deactivated-flag"
+    return None
+
+
+def _c08_label(r):
+    steps = r["case"]["steps"]
+    sp = [s["expect"]["spoiled"] for s in steps if s["expect"].get("spoiled")]
+    return steps[0]["via"] + "/" + ">".join(s["op"][0] for s in steps if s["expect"]["valid"]) + ("/+" + ",".join(sp) if sp else "")
+
+
+PROPS["C08"] = {
+    "theorem_modules": ["Sidetree.Props.C08"],
+    "prescribes": "Sidetree.Client.new*Request / anchoredJson (Props.C08)",
+    "obligations": [{"name": "Shape_Client", "facts": "module:Client"}, {"name": "Shape_Keys", "facts": "module:Keys"}] + _PARSER_OBL + _APPLIER_OBL,
+    "streams": [{"gen": "C08", "quick": 1500, "thorough": 60000}],
+    "property_check": _c08_property,
+    "label": _c08_label,
+    "nontrivial": lambda r: isinstance(r["model"], dict) and all(o.get("apply") == "ok" for s, o in zip(r["case"]["steps"], r["model"].get("steps", [])) if s["expect"]["valid"]),
+    "shape": lambda r: [[s["via"], s["op"], s["info"]] for s in r["case"]["steps"]],
+    "rule": "lifecycles create -> update* -> recover -> update* -> deactivate (each optional part drawn independently), every request produced by the real builders: half of the cases "
+            "through client.New*Request (opaque document or explicit patches, anchor origin, anchoring window), half through the Sidetree client with did-go documents (keys of all five "
+            "key types as JsonWebKey2020 / EcdsaSecp256k1VerificationKey2019 / Ed25519VerificationKey2018 with JWK or base58, every purpose subset; services with every endpoint shape, "
+            "priority, recipient/routing keys, accept and shared extra-property maps; also-known-as). Updates remove and add keys / services / URIs, one time in three re-adding what they "
+            "remove under the same identifier. Both sha2-256 and sha2-512. Before one step in four (builder level) an input the builder must refuse (equal commitments, key reuse, "
+            "commitment under another hash algorithm) or another malformed input (12 kinds) is tried. Signatures come from a table the generator fills from its own construction of the "
+            "signing input. Each request is parsed, converted with GetAnchoredOperation, and both byte strings are applied. Compared with the model: every request byte for byte, parse "
+            "verdict, anchored bytes / type / suffix / origin, every state. Checked against the generator's own account of what was asked: acceptance, anchored = canonical request, "
+            "document entries by id, also-known-as, commitments, deactivated flag, refusals.",
+    "technique": "Lean 4 theorems (built requests satisfy the parser's acceptance predicate; anchored form re-parses to the same operation; refusals) + go/ast shape obligations + "
+                 "differential correspondence of builders, parser and applier on whole lifecycles",
+    "level_text": "Proved in Lean (requests as JSON values, any hash family, configuration and oracle): a create request built by NewCreateRequest from valid inputs is accepted by a "
+                  "parser whose protocol names the builder's hash algorithm, and the parsed operation carries the requested delta, recovery commitment and anchor origin, its suffix being "
+                  "the multihash of its suffix data; anchored and applied to the empty state it yields exactly the composer's result for the caller's patches and the caller's commitments "
+                  "(built_create_yields). Update, recover and deactivate requests built by the builders are accepted (update/recover/deactivate_built_accepted) given one explicit "
+                  "hypothesis: that the parser's signed-data decoder reads the compact JWS produced by SignModel back as the signed model (JWS framing, C15, plus the JSON text round "
+                  "trip, C05; checked on every generated request by the stream) — everything else the parser demands (reveal value, key freshness, delta, hashes, windows) is derived "
+                  "from the builder's own checks. Recover additionally needs update != recovery commitment, which the builder does not enforce (known finding D11). Builders refuse equal "
+                  "commitments (create), commitments under another or an unsupported hash algorithm, key reuse (update, recover), missing or double content, bad signers. "
+                  "GetAnchoredOperation: for every accepted request of each type the re-assembled request is parsed, in the parser's and in the applier's mode, to the very same "
+                  "operation (anchored_create/update/recover/deactivate) and the applier returns the same outcome on it as on the original for every state (anchored_applies_alike).",
+    "level_note": "Trusted: Lean kernel; extractor; harness (table signer, did-go document construction); kms-go / did-go JSON marshalling of keys and endpoints is taken as given (the "
+                  "stream would show a difference).",
+    "trusted": _APPLY_TRUST,
+}
+
 NOT_CLAIMED = {}
